@@ -145,6 +145,20 @@ GENERATORS = {
 }
 
 
+def _discover() -> None:
+    """every tools/translators/gen_*.py contributes its own GENERATORS dict (name -> callable returning (ok, msg))"""
+    import importlib
+    here = os.path.dirname(os.path.abspath(__file__))
+    for n in sorted(os.listdir(here)):
+        if n.startswith('gen_') and n.endswith('.py'):
+            m = importlib.import_module('tools.translators.' + n[:-3])
+            for k, v in getattr(m, 'GENERATORS', {}).items():
+                GENERATORS.setdefault(k, v)
+
+
+_discover()
+
+
 def main(argv: typing.List[str]) -> int:
     names = argv or list(GENERATORS)
     rc = 0
